@@ -16,12 +16,12 @@ from .. import names
 RULE = ("each clean (schema, document) is compiled under a baseline option set and 3 variants drawn from normalization {none, rust} x "
         "extra response / variables derives x module visibility {pub, pub(crate), inherited} x custom-scalars module {super, "
         "dedicated module} x extern-enum subsets (consumer enum with the reference wire behaviour) x serde path {::serde, serde, "
-        "graphql_client::_private::serde, two re-exports inside the consumer crate}; every vector (C01 payloads, C03 corruptions, valid variable assignments) must yield "
+        "graphql_client::_private::serde, two re-exports inside the consumer crate} x delivery {library, derive macro (one member of most groups)}; every vector (C01 payloads, C03 corruptions, valid variable assignments) must yield "
         "the same accept/reject decision, the same re-serialised payload and the same serialised body under all of them. "
         "Non-trivial = group whose variants differ in normalization, extern enums or scalar module; distinct by (schema, document, variant options)")
 
 FLOOR = {"groups": 30, "variant-comparisons": 90, "vectors-compared": 5000, "dim:normalization": 10, "dim:extern_enums": 5, "dim:custom_scalars_module": 5,
-         "dim:serde_path": 5, "dim:visibility": 10, "dim:derives": 10}
+         "dim:serde_path": 5, "dim:visibility": 10, "dim:derives": 10, "dim:derive-delivery": 8}
 
 
 def variant_options(rng, schema, cid, force_dim=None):
@@ -107,11 +107,18 @@ def gen_groups(run, n):
                 dims = [d for d in dims if d != "extern_enums"]
             opts = dict(base_opts)
             opts.update(vo)
+            if vi == 2 and not enum_free:
+                opts.pop("serde_path", None)      # this member goes through the derive macro, which fixes the serde path
+                dims = [d for d in dims if d != "serde_path"]
             if enum_free:
                 opts["response_derives"] = ["serde::Serialize, Debug, PartialEq", "Debug,::serde::Serialize,PartialEq", "Debug, PartialEq, serde::Serialize , Clone"][vi - 1]
                 opts["skip_none"] = base_opts["skip_none"]
                 dims = dims + ["derive-paths"]
             c = C.make_case(cid, schema, doc, rng, options=opts, fmt=base["schema_format"], features=feats)
+            if vi == 2 and "serde_path" not in opts and not enum_free and not any(names.snake(o_["name"]) == o_["name"] for o_ in doc["operations"]):
+                # this member of the group reaches the generator through the derive macro (options as attribute items)
+                c["delivery"] = "derive"
+                dims = dims + ["derive-delivery"]
             # identical inputs: same schema text, same document, same vectors
             c["schema_text"], c["schema_ext"] = base["schema_text"], base["schema_ext"]
             c["vectors"] = vecs
